@@ -976,7 +976,10 @@ def _can_del_all(self: fst.FST, field: str, options: Mapping[str, Any]) -> bool:
     if field == 'finalbody':
         return bool(ast.handlers)
 
-    return ast.__class__ is _ExceptHandlers or bool(ast.finalbody)  # field == 'handlers'
+    if ast.__class__ is _ExceptHandlers:  # field == 'handlers'
+        return True
+
+    return bool(ast.finalbody) and not ast.orelse and ast.__class__ is not TryStar  # a `try` without handlers needs a `finally`, cannot have an `else` and cannot be a TryStar
 
 
 # ......................................................................................................................
@@ -1113,6 +1116,11 @@ def _put_slice_stmtlike_old(
         else:  # 'body', 'orelse', 'finalbody'
             put_fst = code_as_stmts(code, options, root._parse_params, coerce=True)
             put_body = put_fst.a.body
+
+            if (put_body and field == 'orelse' and not len_body and ast_cls in ASTS_LEAF_TRY and not ast.handlers
+                and fst.FST._get_opt_eff_norm_self(options)
+            ):
+                raise ValueError(f'cannot put to {ast_cls.__name__}.orelse without handlers without norm_self=False')
 
             if not put_body and field != 'body' and len_slice == len_body:  # if putting empty body to optional field that would delete all elememnt there then convert to a delete regardless of what trivia might be in the body to put because otherwise we would wind up with a hanging empty 'else:' or `finally:`
                 put_fst = None
